@@ -21,7 +21,7 @@ uint64_t G_L0; size_t G_data_off; uint64_t G_blk_stream0; size_t G_blk_off;
 typedef struct { uint8_t first[32]; size_t len; uint64_t nblocks; size_t num; uint8_t blk[128]; } hs_in;
 DECL_INPUT(hs_in);
 
-//@job name=sha512_update props=C03,C06 enforce=sha512_update replace=sha512_compress_blocks,memcpy timeout=1200
+//@job name=sha512_update props=C03,C06 enforce=sha512_update replace=sha512_compress_blocks,memcpy timeout=5400 tier=thorough
 void h_sha512_update(void)
 {
 	INPUT(hs_in, I); ASSUME(I.len <= ((size_t)1 << 50) && I.num < 128 && I.nblocks <= ((uint64_t)1 << 55));
